@@ -117,7 +117,7 @@ def run_ff_task(task):
             return None
         eol = "\r\n" if task.get("crlf") else "\n"
         log, expected = build_log(task, pieces, trailer_free, eol)
-        ff.re = _REX
+        rex.install(ff, _REX)
         files = {"/sym/plan.log": log}
         ff.open = text.make_open(files)
         try:
@@ -214,7 +214,7 @@ def concrete_ff(log_text: str, entry: str):
     """the real parser, real re, real files"""
     import re as real_re
     ff = _ff()
-    ff.re = real_re
+    rex.uninstall(ff)
     try:
         p = ff.MetricFFParser()
         if entry == "content":
@@ -233,7 +233,7 @@ def concrete_ff(log_text: str, entry: str):
             content = f.read()
         return "ok", [l + "\n" for l in content.split("\n")[:-1]] if content else []
     finally:
-        ff.re = _REX
+        rex.install(ff, _REX)
 
 
 def _cex(ctx, res, task, log, desc, neg):
@@ -278,7 +278,7 @@ def run_noplan_task(task):
             return None
         free = SymStr([SymChar(v) for v in tv])
         log = SymStr.of(HEADERS[task["header"]]) + free + "\n" + body + TRAILERS[1]
-        ff.re = _REX
+        rex.install(ff, _REX)
         ff.open = text.make_open({"/sym/plan.log": log})
         try:
             status, got = ff.MetricFFParser().get_solving_status("/sym/plan.log")
@@ -467,7 +467,7 @@ def _twin():
         ctx.assume(name_char(v))
         w = SymStr([SymChar(v)])
         log, expected = build_log({"header": 1, "numbers": [0], "indent": 4, "trailer": 1}, [[w]], None, "\n")
-        ff.re = _REX
+        rex.install(ff, _REX)
         return log, w, ff.MetricFFParser()._parse_plan_content(log)
 
     def on_path(ctx, pr):
